@@ -635,9 +635,15 @@ func z15Main(id string) {
 						vs = append(vs, viol{ztSig("C02", f, "handlers"), f})
 					}
 				}
-				res.Failures, res.Races, res.LockRaces, res.Panics = nil, nil, nil, nil
 			}
-			for _, f := range res.Failures {
+			failures, races, lockRaces, panics := res.Failures, res.Races, res.LockRaces, res.Panics
+			if id == "C02" {
+				failures = nil
+			}
+			if id != "C15" {
+				races, lockRaces, panics = nil, nil, nil // (judged by the C15 check)
+			}
+			for _, f := range failures {
 				if id == "C01" {
 					// the runner monitors only: used after shut-down, shut down twice, shut down in use
 					if strings.Contains(f, "completion-on-closed-runner") || strings.Contains(f, "shut down twice") || strings.Contains(f, "closed-in-use") {
@@ -648,16 +654,13 @@ func z15Main(id string) {
 				}
 				vs = append(vs, viol{ztSig("C15", f, "handlers"), f})
 			}
-			if id == "C01" {
-				res.Races, res.LockRaces, res.Panics = nil, nil, nil
-			}
-			for _, rc := range res.Races {
+			for _, rc := range races {
 				vs = append(vs, viol{z15RaceSig(rc), "C15: data race: " + rc})
 			}
-			for _, rc := range res.LockRaces {
+			for _, rc := range lockRaces {
 				vs = append(vs, viol{strings.Replace(z15RaceSig(rc), "C15/race/", "C15/lock-order-race/", 1), "C15: data race under another lock order: " + rc})
 			}
-			for _, p := range res.Panics {
+			for _, p := range panics {
 				site := "?"
 				for _, ln := range strings.Split(p.Stack, "\n") {
 					if strings.Contains(ln, "ollama/server.") && !strings.Contains(ln, "zz_verif") {
